@@ -465,7 +465,7 @@ func (fe *FactEngine) Holds(at ssa.Instruction, want pfact, depth int) (bool, st
 		}
 		return true, ""
 	}
-	if depth >= 3 {
+	if depth >= 6 {
 		return false, "no dominating fact (depth limit)"
 	}
 	// field of a locally built composite literal: the (single) store decides
